@@ -2,16 +2,24 @@
 C03 -- a crash while appending never damages committed records or shows a torn one.
 
 Monitor shape: fault (crash-point) enumeration with a recovery oracle.
-  * the byte stream of an append session is recorded (raw-write monitor proves it is a contiguous ascending
-    append, so "process dies at any byte" == "any prefix of the stream is on disk");
+  * the raw events (writes with their data, truncates) that reach the OS file during an append session are recorded by a
+    recorder hooked under every way of opening a file from Python (builtins.open / io.open / pathlib / io.FileIO /
+    os.open + os.write...); the recorder is checked for completeness on every session (replaying the recorded events on
+    the file as it was before the session must give the file as it is afterwards -- otherwise the run is INCONCLUSIVE);
+  * the raw-write monitor proves the stream is a contiguous ascending append, so "process dies at any byte" == "any prefix
+    of the stream is on disk"; the file state after every raw event (truncates included) is a crash image as well;
   * every prefix (exhaustive; strided inside very large values in the quick tier) is materialised as a crash
-    image, reopened through UKVFile and Collection, judged, then taken through a recovery history (reopen 'a',
-    re-put the lost keys and fresh ones, close, reopen 'r', independent raw scan) and a second crash inside the
+    image, reopened through UKVFile and Collection (keys()+get(), items(), values(), []), judged, then taken through a
+    recovery history (reopen 'a', re-put the lost keys and fresh ones, close, reopen 'r', independent raw scan), the same on
+    ONE long-lived object in three orders (a-r-a-r / r-a-r / object mapped before the crash) and a second crash inside the
     recovery session;
-  * real SIGKILLs of a child process at chosen raw writes are judged by the same oracle.
+  * real SIGKILLs of a child process -- after the n-th raw event (write or truncate), between two puts / before close,
+    in sessions started on a torn file, in the second session of one process -- are judged by the same oracle; a child
+    that was not really killed where planned makes the run INCONCLUSIVE.
 """
 from __future__ import annotations
 
+import io
 import os
 import signal
 import subprocess
@@ -19,28 +27,43 @@ import sys
 
 ID = "C03"
 LEVEL = "fault_enumeration"
-RULE = ("sessions of 1..6 puts (key sizes 0/1/17/255, value sizes 0/1/100/8191/8192/8193/70000) through UKVFile('a') and "
+RULE = ("sessions of 1..6 puts (key sizes 0/1/17/255, value sizes 0/1/100/8191/8192/8193/70000, about a third of the values "
+        "mostly or entirely zero bytes) through UKVFile('a') and "
         "through Collection.writing() with bufsize in {-1,0,4096,1e6}, on files with 0..3 committed records; crash points: "
         "every byte prefix of the session's byte stream (exhaustive; stride-with-edges inside values > 300 bytes in the "
-        "quick tier), second crash inside the recovery session (edges + seeded offsets), real SIGKILL at the n-th raw "
-        "write; non-trivial = the cut lands strictly inside a record; distinct by (session shape, record, region, "
-        "offset class)")
+        "quick tier), the file state after every recorded raw event (write / truncate), second crash inside the recovery "
+        "session (edges + seeded offsets), real SIGKILL after the n-th raw event, between puts / before close, on a torn "
+        "start file and in the second session of one process; recovery histories on fresh objects and on one long-lived "
+        "object (a-r-a-r, r-a-r, mapped before the crash); non-trivial = the cut lands strictly inside a record; distinct "
+        "by (session shape, record, region, offset class)")
 ASSUMPTIONS = [
-    "a process death leaves a prefix of the bytes handed to the OS; the raw-write monitor checks on every session that the "
-    "stream is a contiguous ascending append (power loss / reordering by the storage stack is outside the claim)",
+    "a process death leaves the file as it is after a prefix of the raw events handed to the OS (the last write possibly "
+    "partial); the raw-write monitor checks on every session that the stream is a contiguous ascending append and that the "
+    "recorded events reproduce the file (power loss / reordering by the storage stack is outside the claim)",
     "a record of the interrupted session may be absent even if all its bytes reached the disk (the statement allows "
     "'completely or not at all')",
 ]
-REQUIRED = {"image.judged": 2000, "image.cut-in-header": 100, "image.cut-in-key": 100, "image.cut-in-key-inside-character": 50, "image.cut-in-value": 500,
+REQUIRED = {"image.judged": 2000, "image.cut-in-header": 100, "image.cut-in-key": 100, "image.cut-in-key-inside-character": 50,
+            "image.cut-in-value": 500,
             "recovery.judged": 1000, "second-crash.judged": 200, "rawwrite.sessions": 20, "sigkill.judged": 8,
-            "image.via-collection": 500, "same-object.judged": 1000}
+            "image.via-collection": 500, "same-object.judged": 1000,
+            # --- added after the gap review
+            "image.alt-readers": 2000,                    # every image also read through items() / values() / []
+            "rawwrite.writes": 60, "rawwrite.replay-matches-file": 20, "rawwrite.event-states": 60,
+            "rawwrite.recovery-sessions-replayed": 100,
+            "same-object.a-then-r": 300, "same-object.r-then-a": 300, "same-object.mapped-before-crash": 300,
+            "session.zero-heavy-values": 8, "recovery.large-append": 100,
+            "sigkill.really-killed": 12, "sigkill.killed-at-raw-event": 4, "sigkill.killed-between-puts": 3,
+            "sigkill.torn-start-killed": 3, "sigkill.second-session-killed": 3, "sigkill.disk-matches-replay": 4}
 CHUNK_TIMEOUT = 1200
 TECHNIQUE = "runtime monitoring: crash-point enumeration over the recorded append byte stream + recovery oracle + real SIGKILL"
-LEVEL_TEXT = ("Every byte prefix of the recorded byte stream of real append sessions is turned into a crash image and the real "
+LEVEL_TEXT = ("Every byte prefix of the recorded byte stream of real append sessions (and the file state after every raw "
+              "write / truncate) is turned into a crash image and the real "
               "readers/writers are run on it (reopen, recovery appends, second crash); additionally real SIGKILLed writer "
               "processes are judged. Exhaustive over the crash points of the sessions generated, not over all sessions.")
 LEVEL_NOTE = ("Trusted: vmon/models/kvmap.py scanner; the prefix model of a crash, justified per session by the raw-write "
-              "monitor (contiguous ascending appends).")
+              "monitor (contiguous ascending appends; recorder complete: replay of its events == the file; predicted disk "
+              "state == real disk state after real kills).")
 
 KEYSIZES = [1, 17, 255]
 VALSIZES = [0, 1, 100, 8191, 8192, 8193, 70000]
@@ -56,12 +79,23 @@ def plan(tier, seed):
                       "full": 0 if tier == "quick" else (70000 if i % 8 == 7 else 9000)})
     nk = 8 if tier == "quick" else 64
     for i in range(nk):
-        specs.append({"kind": "sigkill", "chunk": i, "n": 3 if tier == "quick" else 6})
+        specs.append({"kind": "sigkill", "chunk": i, "n": 4 if tier == "quick" else 8})
     return specs
 
 
-def make_session(rng, big_ok=True):
+def zero_heavy(size, salt, all_zero=False):
+    """a value that is mostly zero bytes (an all-zero / sparse array): left-over bytes of it parse as record headers"""
+    b = bytearray(size)
+    if not all_zero:
+        for j in range(salt % 89, size, 89):
+            b[j] = 1 + (j * 7 + salt) % 250
+    return bytes(b)
+
+
+def make_session(rng, big_ok=True, count=None):
     """-> (committed records, session records); keys unique"""
+    import random
+
     empty_key_at = rng.randrange(0, 14)        # in about half of the sessions one record has the (legal) empty key
 
     nonascii = rng.random() < 0.35             # keys are text: a crash may fall inside a multi-byte character
@@ -74,7 +108,7 @@ def make_session(rng, big_ok=True):
             return bytes([(65 if tag == "p" else 97) + i])
         base = f"{tag}{i}-".encode()
         if nonascii:
-            pool = "\u03b1\u03b2\u2212\u952e\u00fc\u00e9\u2192\U0001F600"
+            pool = "αβ−键üé→\U0001F600"
             out, j = base, 0
             while True:
                 ch = pool[(i * 3 + j) % len(pool)].encode()
@@ -92,6 +126,7 @@ def make_session(rng, big_ok=True):
     committed, sess = [], []
     used = set()
     salt = rng.randrange(1000)
+    zr = random.Random(f"zero-heavy/{salt}/{ncommit}/{nsess}/{empty_key_at}")   # own stream: the shapes stay as they were
     bigs = 0
     for i in range(ncommit + nsess):
         tag = "p" if i < ncommit else "s"
@@ -102,69 +137,303 @@ def make_session(rng, big_ok=True):
             size = 0                            # ... and sometimes an empty value as well: a record of five zero bytes
         if size == 70000:
             bigs += 1
-        (committed if i < ncommit else sess).append((k, val(size, salt + i)))
+        z = zr.random()
+        if size and z < 0.35:
+            v = zero_heavy(size, salt + i, all_zero=z < 0.1)
+            if count is not None:
+                count("session.zero-heavy-values")
+        else:
+            v = val(size, salt + i)
+        (committed if i < ncommit else sess).append((k, v))
     return committed, sess
 
 
+# ----------------------------------------------------------------------------------------------------------------------
+# raw-event recorder
+# ----------------------------------------------------------------------------------------------------------------------
+
 class RawRecorder:
-    """records raw writes reaching the OS file for one path (wrapping pathlib.Path.open for that path only)"""
+    """records the raw events reaching the OS file of ONE path: ("w", offset, data) and ("t", new size).
+
+    Hooked under every Python-level way of getting at the file: builtins.open, io.open (hence pathlib.Path.open,
+    os.fdopen), io.FileIO, os.open + os.write / os.pwrite / os.writev / os.ftruncate, os.truncate.  Whatever still gets
+    past it is found by the completeness test of the caller (replay(events) == file).
+    `on_event(i)` is called after the i-th event has reached the file (used by the kill children)."""
+
+    _OS_NAMES = ("open", "close", "write", "pwrite", "writev", "ftruncate", "truncate")
 
     def __init__(self, path):
-        self.path = os.fspath(path)
-        self.writes = []      # (offset, nbytes)
-        self.truncs = []
-        self._orig = None
+        self.path = os.path.abspath(os.fspath(path))
+        self.events = []
+        self.on_event = None
+        self.fds = {}             # fd -> append flag, for every writable descriptor known to be open on the path
+        self._saved = None
+
+    # -- bookkeeping
+    @property
+    def writes(self):
+        return [(e[1], len(e[2])) for e in self.events if e[0] == "w"]
+
+    @property
+    def truncs(self):
+        return [e[1] for e in self.events if e[0] == "t"]
+
+    def _emit(self, ev):
+        self.events.append(ev)
+        if self.on_event is not None:
+            self.on_event(len(self.events) - 1)
+
+    def _is_path(self, file):
+        try:
+            if isinstance(file, int):
+                return False
+            p = os.fspath(file)
+            if isinstance(p, bytes):
+                p = os.fsdecode(p)
+            return os.path.abspath(p) == self.path
+        except Exception:  # noqa
+            return False
+
+    def _mine(self, file):
+        if isinstance(file, int) and not isinstance(file, bool):
+            return file in self.fds
+        return self._is_path(file)
 
     def __enter__(self):
-        import io
+        import builtins
         import pathlib
 
         rec = self
+        o = {n: getattr(os, n) for n in self._OS_NAMES if hasattr(os, n)}
+        orig_open, orig_fileio, orig_pathopen = io.open, io.FileIO, pathlib.Path.open
+        self._saved = (o, orig_open, builtins.open, orig_fileio, orig_pathopen)
 
-        class RawIO(io.FileIO):
+        class RawIO(orig_fileio):
+            _c03_tracked = False
+
+            def __init__(self, file, mode="r", closefd=True, opener=None):
+                super().__init__(file, mode, closefd, opener)
+                if rec._mine(file) and self.writable():
+                    self._c03_tracked = True
+                    self._c03_append = "a" in mode
+                    rec.fds[self.fileno()] = self._c03_append
+
             def write(self, b):
-                off = self.tell()
+                if not self._c03_tracked:
+                    return super().write(b)
+                off = os.fstat(self.fileno()).st_size if self._c03_append else self.tell()
                 n = super().write(b)
-                rec.writes.append((off, n if n is not None else len(b)))
+                n_ = len(b) if n is None else n
+                rec._emit(("w", off, bytes(memoryview(b).cast("B")[:n_])))
                 return n
 
             def truncate(self, size=None):
-                rec.truncs.append(self.tell() if size is None else size)
-                return super().truncate(size)
+                if not self._c03_tracked:
+                    return super().truncate(size)
+                new = self.tell() if size is None else size
+                r = super().truncate(size)
+                rec._emit(("t", new))
+                return r
 
-        self._orig = pathlib.Path.open
+            def close(self):
+                if self._c03_tracked and not self.closed:
+                    try:
+                        rec.fds.pop(self.fileno(), None)
+                    except Exception:  # noqa
+                        pass
+                return super().close()
 
-        def patched(p, mode="r", *a, **kw):
-            if os.fspath(p) == rec.path and "b" in mode and ("+" in mode or "w" in mode or "a" in mode):
-                raw = RawIO(os.fspath(p), mode.replace("b", ""))
-                return io.BufferedRandom(raw) if "+" in mode else io.BufferedWriter(raw)
-            return rec._orig(p, mode, *a, **kw)
+        def tracked_open(file, mode, buffering, encoding, errors, newline, closefd, opener):
+            # what io.open does, with the recording raw class underneath
+            raw = RawIO(file, "".join(c for c in mode if c not in "bt"), closefd, opener)
+            try:
+                binary = "b" in mode
+                line_buffering = buffering == 1
+                if buffering < 0 or line_buffering:
+                    buffering = getattr(raw, "_blksize", io.DEFAULT_BUFFER_SIZE)
+                    if not isinstance(buffering, int) or buffering <= 1:
+                        buffering = io.DEFAULT_BUFFER_SIZE
+                if buffering == 0:
+                    if binary:
+                        return raw
+                    raise ValueError("can't have unbuffered text I/O")
+                if "+" in mode:
+                    buf = io.BufferedRandom(raw, buffering)
+                elif any(c in mode for c in "wax"):
+                    buf = io.BufferedWriter(raw, buffering)
+                else:
+                    buf = io.BufferedReader(raw, buffering)
+                if binary:
+                    return buf
+                text = io.TextIOWrapper(buf, encoding, errors, newline, line_buffering)
+                text.mode = mode
+                return text
+            except BaseException:
+                raw.close()
+                raise
 
-        pathlib.Path.open = patched
+        def patched_open(file, mode="r", buffering=-1, encoding=None, errors=None, newline=None, closefd=True,
+                         opener=None):
+            if isinstance(mode, str) and any(c in mode for c in "wax+") and rec._mine(file):
+                return tracked_open(file, mode, buffering, encoding, errors, newline, closefd, opener)
+            return orig_open(file, mode, buffering, encoding, errors, newline, closefd, opener)
+
+        def path_open(p, mode="r", buffering=-1, encoding=None, errors=None, newline=None):
+            if "b" not in mode:
+                encoding = io.text_encoding(encoding)
+            return patched_open(p, mode, buffering, encoding, errors, newline)
+
+        def os_open(path, flags, mode=0o777, *, dir_fd=None):
+            fd = o["open"](path, flags, mode, dir_fd=dir_fd)
+            if dir_fd is None and flags & (os.O_WRONLY | os.O_RDWR) and rec._is_path(path):
+                rec.fds[fd] = bool(flags & os.O_APPEND)
+                if flags & os.O_TRUNC:
+                    rec._emit(("t", 0))
+            else:
+                rec.fds.pop(fd, None)
+            return fd
+
+        def os_close(fd):
+            rec.fds.pop(fd, None)
+            return o["close"](fd)
+
+        def _pos(fd):
+            return os.fstat(fd).st_size if rec.fds.get(fd) else os.lseek(fd, 0, os.SEEK_CUR)
+
+        def os_write(fd, data):
+            if fd not in rec.fds:
+                return o["write"](fd, data)
+            off = _pos(fd)
+            n = o["write"](fd, data)
+            rec._emit(("w", off, bytes(memoryview(data).cast("B")[:n])))
+            return n
+
+        def os_pwrite(fd, data, offset):
+            n = o["pwrite"](fd, data, offset)
+            if fd in rec.fds:
+                rec._emit(("w", offset, bytes(memoryview(data).cast("B")[:n])))
+            return n
+
+        def os_writev(fd, buffers):
+            if fd not in rec.fds:
+                return o["writev"](fd, buffers)
+            buffers = [bytes(b) for b in buffers]
+            off = _pos(fd)
+            n = o["writev"](fd, buffers)
+            rec._emit(("w", off, b"".join(buffers)[:n]))
+            return n
+
+        def os_ftruncate(fd, length):
+            r = o["ftruncate"](fd, length)
+            if fd in rec.fds:
+                rec._emit(("t", length))
+            return r
+
+        def os_truncate(path, length):
+            r = o["truncate"](path, length)
+            if rec._mine(path):
+                rec._emit(("t", length))
+            return r
+
+        new_os = {"open": os_open, "close": os_close, "write": os_write, "pwrite": os_pwrite, "writev": os_writev,
+                  "ftruncate": os_ftruncate, "truncate": os_truncate}
+        for n in o:
+            setattr(os, n, new_os[n])
+        io.open = patched_open
+        builtins.open = patched_open
+        io.FileIO = RawIO
+        pathlib.Path.open = path_open
         return self
 
     def __exit__(self, *a):
+        import builtins
         import pathlib
 
-        pathlib.Path.open = self._orig
+        o, io_open, b_open, fileio, pathopen = self._saved
+        for n, f in o.items():
+            setattr(os, n, f)
+        io.open, builtins.open, io.FileIO, pathlib.Path.open = io_open, b_open, fileio, pathopen
+        self.fds.clear()
 
 
-def write_session(path, sess, via, bufsize):
-    """run the append session on the real code"""
+def replay(base, events, n=None):
+    """the file after the first n recorded events, starting from `base`"""
+    s = bytearray(base)
+    for ev in events[:n]:
+        _apply(s, ev)
+    return bytes(s)
+
+
+def _apply(s, ev, cut=None):
+    if ev[0] == "t":
+        size = ev[1]
+        if size <= len(s):
+            del s[size:]
+        else:
+            s.extend(bytes(size - len(s)))
+    else:
+        _, off, data = ev
+        if cut is not None:
+            data = data[:cut]
+        if off > len(s):
+            s.extend(bytes(off - len(s)))       # a hole reads back as zeros
+        s[off:off + len(data)] = data
+
+
+def event_states(base, events):
+    """crash states the prefix enumeration may not contain: the file after every raw event; for a write that is not a
+    plain append at the end of the file also three states inside it.  yields (event index, kind, image)"""
+    s = bytearray(base)
+    for i, ev in enumerate(events):
+        if ev[0] == "t":
+            _apply(s, ev)
+            yield i, "after-truncate", bytes(s)
+            continue
+        off, data = ev[1], ev[2]
+        if off != len(s) and len(data) > 1:
+            for cut in sorted({1, len(data) // 2, len(data) - 1}):
+                if 0 < cut < len(data):
+                    t = bytearray(s)
+                    _apply(t, ev, cut)
+                    yield i, "inside-non-appending-write", bytes(t)
+        _apply(s, ev)
+        yield i, "after-write", bytes(s)
+
+
+def write_session(path, sess, via, bufsize, after_put=None, split=0, on_split=None):
+    """run the append session on the real code (records [:split] in a first, cleanly closed session of the same object)"""
+    n = 0
+    parts = [sess[:split], sess[split:]] if split else [sess]
     if via == "ukv":
         from molli.storage.ukvfile import UKVFile
 
-        f = UKVFile(path, mode="a")
-        for k, v in sess:
-            f.put(k, v)
-        f.close()
+        f = None
+        for pi, part in enumerate(parts):
+            if f is None:
+                f = UKVFile(path, mode="a")
+            else:
+                f.open("a")
+            for k, v in part:
+                f.put(k, v)
+                n += 1
+                if after_put is not None:
+                    after_put(n)
+            f.close()
+            if split and pi == 0 and on_split is not None:
+                on_split()
     else:
         from molli.storage import Collection, UkvCollectionBackend
 
         c = Collection(path, UkvCollectionBackend, readonly=False, bufsize=bufsize)
-        with c.writing():
-            for k, v in sess:
-                c[k.decode("utf-8")] = v
+        for pi, part in enumerate(parts):
+            with c.writing():
+                for k, v in part:
+                    c[k.decode("utf-8")] = v
+                    n += 1
+                    if after_put is not None:
+                        after_put(n)
+            if split and pi == 0 and on_split is not None:
+                on_split()
 
 
 def run_chunk(spec, ctx):
@@ -210,15 +479,40 @@ def offsets_for(before_len, sess, full):
     return res
 
 
+class Shown(dict):
+    """key -> value as shown by keys()+get(); .alt: what the other public readers show of the same image"""
+    alt = None
+
+
+class CountDiffers(Exception):
+    pass
+
+
+def pair_values(keys, values):
+    """values() has no keys of its own: it is read against keys() position by position"""
+    keys, values = list(keys), list(values)
+    if len(keys) != len(values):
+        raise CountDiffers(f"{len(values)} values for {len(keys)} keys")
+    return list(zip(keys, values))
+
+
 class Judge:
     def __init__(self, ctx, case, shape):
         self.ctx, self.case, self.shape = ctx, case, shape
+        self.nv = 0
 
     def v(self, key, **detail):
+        self.nv += 1
         self.ctx.violation(key, case=self.case, shape=self.shape, **detail)
 
     def read_image(self, path, via):
-        """-> dict key->value as shown by the real reader, or None after reporting"""
+        """-> Shown (key->value as shown by the real reader), or None after reporting"""
+        def attempt(fn):
+            try:
+                return fn()
+            except Exception as e:  # noqa
+                return e
+
         if via == "ukv":
             from molli.storage.ukvfile import UKVFile
 
@@ -228,12 +522,17 @@ class Judge:
                 self.v(f"reopen-r-raises:{type(e).__name__}", err=repr(e)[:200])
                 return None
             try:
-                shown = {}
-                for k in list(f.keys()):
+                shown = Shown()
+                keys = list(f.keys())
+                for k in keys:
                     try:
                         shown[k] = f.get(k)
                     except Exception as e:  # noqa
                         shown[k] = e
+                self.ctx.count("image.alt-readers")
+                shown.alt = {"items()": attempt(lambda: list(f.items())),
+                             "values()": attempt(lambda: pair_values(f.keys(), f.values())),
+                             "[]": attempt(lambda: [(k, f[k]) for k in f.keys()])}
                 return shown
             finally:
                 f.close()
@@ -243,13 +542,18 @@ class Judge:
             self.ctx.count("image.via-collection")
             try:
                 c = Collection(path, UkvCollectionBackend, readonly=True)
-                shown = {}
+                shown = Shown()
                 with c.reading():
                     for k in list(c.keys()):
                         try:
                             shown[k.encode("utf-8")] = c[k]
                         except Exception as e:  # noqa
                             shown[k.encode("utf-8")] = e
+                    self.ctx.count("image.alt-readers")
+                    shown.alt = {
+                        "items()": attempt(lambda: [(k.encode("utf-8"), v) for k, v in c.items()]),
+                        "values()": attempt(lambda: pair_values([k.encode("utf-8") for k in c.keys()], c.values())),
+                    }
                 return shown
             except Exception as e:  # noqa
                 self.v(f"reopen-r-raises:{type(e).__name__}", err=repr(e)[:200])
@@ -286,59 +590,237 @@ class Judge:
             if k not in committed and k not in maybe:
                 partial = any(mk.startswith(k) for mk in maybe)
                 self.v(f"{stage}:{'partial-key' if partial else 'unknown-key'}-listed", where=where, klen=len(k))
+        # ---- the other public readers of the same open image must show the same records
+        alt = getattr(shown, "alt", None)
+        if alt and not any(isinstance(x, Exception) for x in shown.values()):
+            ref = sorted(shown.items())
+            for name, res in alt.items():
+                if isinstance(res, CountDiffers):
+                    self.v(f"{stage}[{name}]:count-differs-from-keys()", where=where, err=str(res))
+                    continue
+                if isinstance(res, Exception):
+                    self.v(f"{stage}[{name}]:raises:{type(res).__name__}", where=where, err=repr(res)[:200])
+                    continue
+                try:
+                    same = sorted(res) == ref
+                except Exception:  # noqa
+                    same = False
+                if same:
+                    continue
+                nv = self.nv
+                try:
+                    self.judge(dict(res), committed, maybe, f"{stage}[{name}]", where)
+                except Exception:  # noqa
+                    pass
+                if self.nv == nv:
+                    self.v(f"{stage}[{name}]:disagrees-with-keys()+get()", where=where, n=len(res), n_keys=len(ref))
         return present
 
 
-def same_object_history(J, ctx, path, image, via, bufsize, cdict, sdict, where):
-    """reopen 'a' (no put), reopen 'r', reopen 'a' + put, reopen 'r' -- all on one UKVFile / Collection object"""
-    path.write_bytes(image)
+def same_object_history(J, ctx, path, before, image, via, bufsize, cdict, sdict, present0, where, variant):
+    """recovery through ONE long-lived UKVFile / Collection object that is reopened again and again:
+    variant 0: reopen 'a' (no put), reopen 'r', reopen 'a' + put, reopen 'r'
+    variant 1: reopen 'r' (look what survived), reopen 'a' + put, reopen 'r'
+    variant 2: the object was opened and closed BEFORE the crash session of another program; then 'a' + put, 'r'
+    afterwards a fresh reader and the independent raw scan look at the file."""
+    from vmon.models.kvmap import scan, ScanError
+
     ctx.count("same-object.judged")
-    fresh_k, fresh_v = b"same-object-fresh", b"S" * 7
+    ctx.count(["same-object.a-then-r", "same-object.r-then-a", "same-object.mapped-before-crash"][variant])
+    n = where.get("offset", 0)
+    if n % 4 == 3:
+        fresh_k, fresh_v = b"same-object-fresh", zero_heavy(600, n)          # larger than many torn tails
+    else:
+        fresh_k, fresh_v = b"sof", b"S" * (n % 3)                            # shorter than most torn tails
+    present = set(present0)
     try:
         if via == "ukv":
             from molli.storage.ukvfile import UKVFile
 
-            f = UKVFile(path, mode="a")
-            f.close()
-            f.open("r")
-            shown = {k: f.get(k) for k in list(f.keys())}
-            f.close()
-            present = J.judge(shown, cdict, sdict, "same-object-reopen", where)
+            def read(f):
+                f.open("r")
+                try:
+                    return {k: f.get(k) for k in list(f.keys())}
+                finally:
+                    f.close()
+
+            if variant == 2:
+                path.write_bytes(before)
+                f = UKVFile(path, mode="ra"[(n >> 1) & 1])
+                if n & 4:
+                    list(f.items())
+                f.close()
+                path.write_bytes(image)
+            else:
+                path.write_bytes(image)
+                if variant == 0:
+                    f = UKVFile(path, mode="a")
+                    f.close()
+                    shown = read(f)
+                else:
+                    f = UKVFile(path, mode="r")
+                    shown = {k: f.get(k) for k in list(f.keys())}
+                    f.close()
+                present = J.judge(shown, cdict, sdict, "same-object-reopen", where)
             f.open("a")
             f.put(fresh_k, fresh_v)
             f.close()
-            f.open("r")
-            shown = {k: f.get(k) for k in list(f.keys())}
-            f.close()
+            shown = read(f)
         else:
             from molli.storage import Collection, UkvCollectionBackend
 
-            c = Collection(path, UkvCollectionBackend, readonly=False, bufsize=bufsize)
-            with c.writing():
-                pass
-            with c.reading():
-                shown = {k.encode("utf-8"): c[k] for k in list(c.keys())}
-            present = J.judge(shown, cdict, sdict, "same-object-reopen", where)
+            def read(c):
+                with c.reading():
+                    return {k.encode("utf-8"): c[k] for k in list(c.keys())}
+
+            if variant == 2:
+                path.write_bytes(before)
+                c = Collection(path, UkvCollectionBackend, readonly=False, bufsize=bufsize)
+                if (n >> 1) & 1:
+                    with c.writing():
+                        pass
+                else:
+                    read(c)
+                path.write_bytes(image)
+            else:
+                path.write_bytes(image)
+                c = Collection(path, UkvCollectionBackend, readonly=False, bufsize=bufsize)
+                if variant == 0:
+                    with c.writing():
+                        pass
+                shown = read(c)
+                present = J.judge(shown, cdict, sdict, "same-object-reopen", where)
             with c.writing():
                 c[fresh_k.decode()] = fresh_v
-            with c.reading():
-                shown = {k.encode("utf-8"): c[k] for k in list(c.keys())}
+            shown = read(c)
     except Exception as e:  # noqa
-        J.v(f"same-object-history:raises:{type(e).__name__}", where=where, err=repr(e)[:200])
+        J.v(f"same-object-history:raises:{type(e).__name__}", where=where, variant=variant, err=repr(e)[:200])
         return
     must = dict(cdict)
     must.update({k: sdict[k] for k in present})
     must[fresh_k] = fresh_v
     J.judge(shown, must, {}, "same-object-after-recovery", where)
+    # what everybody else sees of the file the long-lived object left behind
+    other = J.read_image(path, via)
+    if other is not None:
+        J.judge(other, must, {}, "after-same-object-recovery", where)
+    try:
+        scan(path.read_bytes())
+    except ScanError as e:
+        J.v("after-same-object-recovery:file-not-a-clean-record-sequence", where=where, variant=variant, err=str(e))
 
 
-def recover(path, via, bufsize, puts):
-    """recovery session on the real code; -> None or the exception"""
+def recover(path, via, bufsize, puts, rec=False):
+    """recovery session on the real code; -> None or the exception (rec=True: -> (that, recorded raw events))"""
+    if rec:
+        with RawRecorder(path) as r:
+            err = recover(path, via, bufsize, puts)
+        return err, r.events
     try:
         write_session(path, puts, via, bufsize)
     except Exception as e:  # noqa
         return e
     return None
+
+
+class CrashImageOracle:
+    """reopen + recovery history + second crash for one crash image of one session"""
+
+    def __init__(self, J, ctx, via, bufsize, before, committed, sess):
+        self.J, self.ctx, self.via, self.bufsize, self.before = J, ctx, via, bufsize, before
+        self.cdict, self.sdict, self.sess = dict(committed), dict(sess), sess
+        self.img = ctx.tmp / "img.ukv"
+        self.img2 = ctx.tmp / "img2.ukv"
+        self.rec_sample = 0
+        self.n = 0
+
+    def run(self, image, where):
+        from vmon.models.kvmap import scan, ScanError
+
+        J, ctx, via, bufsize, img, cdict, sdict = self.J, self.ctx, self.via, self.bufsize, self.img, self.cdict, self.sdict
+        idx = self.n
+        self.n += 1
+        img.write_bytes(image)
+        shown = J.read_image(img, via)
+        if shown is None:
+            return
+        present = J.judge(shown, cdict, sdict, "reopen", where)
+        # a record whose bytes are not all on disk cannot be present
+        # ---- recovery history: reopen 'a', re-put what was lost with a NEW value, add fresh records
+        lost = [(k, b"again:" + v[:50]) for k, v in self.sess if k not in present]
+        fresh = [(b"fresh-1", b"F" * 10), (b"fresh-2", b"")]
+        if idx % 6 == 5:
+            fresh.append((b"fresh-big", zero_heavy(9000, idx)))       # larger than the buffer and than most torn tails
+            ctx.count("recovery.large-append")
+        recorded = idx % 8 == 3
+        if recorded:
+            err, events = recover(img, via, bufsize, lost + fresh, rec=True)
+        else:
+            err, events = recover(img, via, bufsize, lost + fresh), None
+        ctx.count("recovery.judged")
+        if err is not None:
+            J.v(f"recovery:append-after-crash-raises:{type(err).__name__}", where=where, err=repr(err)[:200])
+            return
+        rec_after = img.read_bytes()
+        must = dict(cdict)
+        must.update({k: sdict[k] for k in present})
+        if events is not None:
+            # the recorder must have seen the whole recovery session, truncation of the torn tail included
+            if replay(image, events) != rec_after:
+                ctx.inconclusive.append("raw-event recorder incomplete: the events recorded during a recovery session do not "
+                                        f"reproduce the file ({len(events)} events, shape {self.J.shape})")
+            else:
+                ctx.count("rawwrite.recovery-sessions-replayed")
+            # a death right after a raw truncate of the recovery session
+            for i, kind, state in event_states(image, events):
+                if kind != "after-truncate":
+                    continue
+                ctx.count("rawwrite.truncates-judged")
+                img.write_bytes(state)
+                shown_t = J.read_image(img, via)
+                if shown_t is not None:
+                    J.judge(shown_t, must, dict(lost + fresh), "second-crash-after-truncate", {**where, "event": i})
+            img.write_bytes(rec_after)
+        shown2 = J.read_image(img, via)
+        if shown2 is None:
+            return
+        must_all = dict(must)
+        must_all.update(dict(lost))
+        must_all.update(dict(fresh))
+        J.judge(shown2, must_all, {}, "after-recovery", where)
+        try:
+            scan(rec_after)
+        except ScanError as e:
+            J.v("after-recovery:file-not-a-clean-record-sequence", where=where, err=str(e))
+        # ---- the same recovery through ONE long-lived object that is reopened again and again
+        same_object_history(J, ctx, self.img2, self.before, image, via, bufsize, cdict, sdict, present, where, idx % 3)
+        # ---- second crash inside the recovery session
+        clean_end = len(rec_after) - sum(5 + len(k) + len(v) for k, v in lost + fresh)
+        span = len(rec_after) - clean_end
+        off = where.get("offset", len(image))
+        picks = {clean_end + 1, clean_end + 4, clean_end + 5, clean_end + 6, len(rec_after) - 1,
+                 clean_end + (off * 7919) % max(span, 1)}
+        for off2 in sorted(p for p in picks if clean_end < p < len(rec_after)):
+            self.rec_sample += 1
+            if self.rec_sample % 3:
+                continue
+            img.write_bytes(rec_after[:off2])
+            shown3 = J.read_image(img, via)
+            ctx.count("second-crash.judged")
+            if shown3 is None:
+                continue
+            J.judge(shown3, must, dict(lost + fresh), "second-crash", {**where, "offset2": off2 - clean_end})
+            err = recover(img, via, bufsize, [(b"final", b"z" * 3)])
+            if err is not None:
+                J.v(f"second-crash:append-raises:{type(err).__name__}", where=where)
+                continue
+            shown4 = J.read_image(img, via)
+            if shown4 is not None:
+                J.judge(shown4, {**must, b"final": b"zzz"}, dict(lost + fresh), "after-second-recovery", where)
+                try:
+                    scan(img.read_bytes())
+                except ScanError as e:
+                    J.v("after-second-recovery:file-not-a-clean-record-sequence", where=where, err=str(e))
 
 
 def run_prefix(spec, ctx):
@@ -349,7 +831,7 @@ def run_prefix(spec, ctx):
     if not ctx.want(case):
         return
     rng = ctx.rng(*case)
-    committed, sess = make_session(rng)
+    committed, sess = make_session(rng, count=ctx.count)
     path = ctx.tmp / "lib.ukv"
     from molli.storage.ukvfile import UKVFile
 
@@ -361,15 +843,31 @@ def run_prefix(spec, ctx):
     with RawRecorder(path) as rec:
         write_session(path, sess, via, bufsize)
     after = path.read_bytes()
+    events = rec.events
     shape = {"via": via, "bufsize": bufsize, "committed": [(len(k), len(v)) for k, v in committed],
              "session": [(len(k), len(v)) for k, v in sess]}
     J = Judge(ctx, case, shape)
 
-    # ---- raw-write monitor: contiguous ascending append above the committed prefix
+    # ---- the recorder must have seen everything that happened to the file
     ctx.count("rawwrite.sessions")
     ctx.count("rawwrite.writes", len(rec.writes))
+    ctx.count("rawwrite.truncates", len(rec.truncs))
+    if replay(before, events) != after:
+        ctx.inconclusive.append(
+            f"raw-event recorder incomplete: the {len(events)} events recorded during the session do not reproduce the "
+            f"file (file grew {len(before)} -> {len(after)}; recorded writes {rec.writes[:6]}); the library reaches the file "
+            f"in a way the recorder does not see, so the crash states of the session are unknown (shape {shape})")
+    else:
+        ctx.count("rawwrite.replay-matches-file")
+    # ---- raw-write monitor: contiguous ascending append above the committed prefix
     pos = len(before)
-    for off, n in rec.writes:
+    for ev in events:
+        if ev[0] == "t":
+            if ev[1] < len(before):
+                J.v("rawwrite:truncate-below-committed-end", size=ev[1], committed_end=len(before))
+                break
+            continue
+        off, n = ev[1], len(ev[2])
         if off < len(before):
             J.v("rawwrite:touches-committed-region", off=off, committed_end=len(before))
             break
@@ -386,93 +884,46 @@ def run_prefix(spec, ctx):
     except ScanError as e:
         J.v("session:clean-session-file-not-clean", err=str(e))
 
-    cdict, sdict = dict(committed), dict(sess)
-    img = ctx.tmp / "img.ukv"
+    oracle = CrashImageOracle(J, ctx, via, bufsize, before, committed, sess)
     offs = offsets_for(len(before), sess, spec["full"])
-    rec_sample = 0
     for off, ri, region in offs:
-        img.write_bytes(after[:off])
         where = {"offset": off, "record": ri, "region": region, "rel": off - len(before)}
-        shown = J.read_image(img, via)
         ctx.count("image.judged")
         if region != "boundary":
             ctx.count(f"image.cut-in-{region}")
-        oc = "edge" if region == "boundary" else region
         ctx.case(case + (off,), dkey=(repr(shape), ri, region, min(off - len(before), 3)), nontrivial=region != "boundary",
                  sample={"shape": shape, "cut": where} if off == offs[len(offs) // 2][0] else None)
-        if shown is None:
+        oracle.run(after[:off], where)
+
+    # ---- crash states given by the raw events themselves (after each write / truncate, inside non-appending writes);
+    #      with an append-only stream they are prefixes already judged above
+    judged_lengths = {o[0] for o in offs}
+    for i, kind, state in event_states(before, events):
+        ctx.count("rawwrite.event-states")
+        if kind != "inside-non-appending-write" and len(state) in judged_lengths and state == after[:len(state)]:
+            ctx.count("rawwrite.event-states-are-judged-prefixes")
             continue
-        present = J.judge(shown, cdict, sdict, "reopen", where)
-        # a record whose bytes are not all on disk cannot be present
-        # ---- recovery history: reopen 'a', re-put what was lost with a NEW value, add fresh records
-        lost = [(k, b"again:" + v[:50]) for k, v in sess if k not in present]
-        fresh = [(b"fresh-1", b"F" * 10), (b"fresh-2", b"")]
-        err = recover(img, via, bufsize, lost + fresh)
-        ctx.count("recovery.judged")
-        if err is not None:
-            J.v(f"recovery:append-after-crash-raises:{type(err).__name__}", where=where, err=repr(err)[:200])
-            continue
-        rec_after = img.read_bytes()
-        shown2 = J.read_image(img, via)
-        if shown2 is None:
-            continue
-        must = dict(cdict)
-        must.update({k: sdict[k] for k in present})
-        must.update(dict(lost))
-        must.update(dict(fresh))
-        J.judge(shown2, must, {}, "after-recovery", where)
-        try:
-            scan(rec_after)
-        except ScanError as e:
-            J.v("after-recovery:file-not-a-clean-record-sequence", where=where, err=str(e))
-        # ---- the same recovery through ONE long-lived object that is reopened again and again
-        same_object_history(J, ctx, ctx.tmp / "img2.ukv", after[:off], via, bufsize, cdict, sdict, where)
-        # ---- second crash inside the recovery session
-        clean_end = len(rec_after) - sum(5 + len(k) + len(v) for k, v in lost + fresh)
-        span = len(rec_after) - clean_end
-        picks = {clean_end + 1, clean_end + 4, clean_end + 5, clean_end + 6, len(rec_after) - 1,
-                 clean_end + (off * 7919) % max(span, 1)}
-        for off2 in sorted(p for p in picks if clean_end < p < len(rec_after)):
-            rec_sample += 1
-            if rec_sample % 3:
-                continue
-            img.write_bytes(rec_after[:off2])
-            shown3 = J.read_image(img, via)
-            ctx.count("second-crash.judged")
-            if shown3 is None:
-                continue
-            must2 = dict(cdict)
-            must2.update({k: sdict[k] for k in present})
-            J.judge(shown3, must2, dict(lost + fresh), "second-crash", {**where, "offset2": off2 - clean_end})
-            err = recover(img, via, bufsize, [(b"final", b"z" * 3)])
-            if err is not None:
-                J.v(f"second-crash:append-raises:{type(err).__name__}", where=where)
-                continue
-            shown4 = J.read_image(img, via)
-            if shown4 is not None:
-                J.judge(shown4, {**must2, b"final": b"zzz"}, dict(lost + fresh), "after-second-recovery", where)
-                try:
-                    scan(img.read_bytes())
-                except ScanError as e:
-                    J.v("after-second-recovery:file-not-a-clean-record-sequence", where=where, err=str(e))
+        ctx.count("image.event-state-judged")
+        where = {"event": i, "kind": kind, "offset": len(state), "events": [(e[0], e[1], len(e[2]) if e[0] == "w" else None)
+                                                                            for e in events[:i + 1]][-4:]}
+        ctx.case(case + ("event", i, kind, len(state)), dkey=(repr(shape), "event", kind), nontrivial=True)
+        oracle.run(state, where)
 
 
 KILL_CHILD = r"""
-import os, sys, signal, pickle, io, pathlib
+import os, sys, signal, pickle
 sys.path[:0] = %(syspath)r
 from vmon.props.C03 import RawRecorder, write_session
-path, via, bufsize, kill_at = %(path)r, %(via)r, %(bufsize)r, %(kill_at)r
-sess = pickle.load(open(%(sessf)r, 'rb'))
-rec = RawRecorder(path)
-orig_append = rec.writes.append
-class L(list):
-    def append(self, x):
-        list.append(self, x)
-        if len(self) == kill_at:
-            os.kill(os.getpid(), signal.SIGKILL)
-rec.writes = L()
+job = pickle.load(open(%(jobf)r, 'rb'))
+kind, at = job['kill']
+def die():
+    os.kill(os.getpid(), signal.SIGKILL)
+rec = RawRecorder(job['path'])
+if kind == 'event':
+    rec.on_event = lambda i: die() if i == at else None
+after_put = (lambda n: die() if n == at else None) if kind == 'put' else None
 with rec:
-    write_session(path, sess, via, bufsize)
+    write_session(job['path'], job['sess'], job['via'], job['bufsize'], after_put=after_put, split=job['split'])
 """
 
 
@@ -485,47 +936,169 @@ def run_sigkill(spec, ctx):
         if not ctx.want(case):
             continue
         rng = ctx.rng(*case)
-        committed, sess = make_session(rng)
+        committed, sess = make_session(rng, count=ctx.count)
         via = rng.choice(["ukv", "coll"])
         bufsize = rng.choice([-1, 0, 4096, 10**6])
+        # the four kinds of death, in turn: after a raw event / between two puts (or before close) / in a session that
+        # starts on a torn file (death right after the torn tail was dealt with, or later) / in the second session of
+        # one long-lived object
+        mode = ["raw-event", "between-puts", "torn-start", "second-session"][j % 4]
+        split = 0
+        if mode == "second-session":
+            if len(sess) < 2:
+                sess = sess + [(b"second-session-extra", b"x" * 4500)]
+            split = rng.randrange(1, len(sess))
         path = ctx.tmp / f"k{j}.ukv"
         f = UKVFile(path, mode="w")
         for k, v in committed:
             f.put(k, v)
         f.close()
-        before = path.read_bytes()
-        sessf = ctx.tmp / f"sess{j}.pkl"
-        sessf.write_bytes(pickle.dumps(sess))
-        kill_at = rng.randrange(1, 6)
-        code = KILL_CHILD % {"syspath": [p for p in sys.path if p], "path": str(path), "via": via, "bufsize": bufsize,
-                             "kill_at": kill_at, "sessf": str(sessf)}
-        p = subprocess.run([sys.executable, "-c", code], capture_output=True, text=True, timeout=120)
-        killed = p.returncode == -signal.SIGKILL
-        if not killed and p.returncode != 0:
-            ctx.inconclusive.append(f"sigkill child failed rc={p.returncode}: {p.stderr[-400:]}")
+        start = path.read_bytes()
+        if mode == "torn-start":
+            tk, tv = b"torn-by-somebody-else", zero_heavy(rng.choice([3, 400, 6000]), j)
+            whole = bytes([len(tk)]) + len(tv).to_bytes(4, "big") + tk + tv
+            start += whole[:rng.randrange(1, len(whole))]
+            path.write_bytes(start)
+        # ---- dry run in this process: which raw events does the session produce, and where does its second part begin
+        marks = []
+        with RawRecorder(path) as rec:
+            derr = recover_split(path, sess, via, bufsize, split, lambda: marks.append(len(rec.events)))
+        events, clean_after = rec.events, path.read_bytes()
+        path.write_bytes(start)
+        if derr is not None:
+            J0 = Judge(ctx, case, {"via": via, "bufsize": bufsize, "mode": mode})
+            J0.v(f"sigkill-dry-run:session-raises:{type(derr).__name__}", err=repr(derr)[:200])
             continue
-        shape = {"via": via, "bufsize": bufsize, "kill_at_raw_write": kill_at, "killed": killed,
+        blind = replay(start, events) != clean_after
+        if blind:
+            # the recorder cannot place a death inside this session; one between two puts needs no recorder
+            ctx.inconclusive.append(f"raw-event recorder incomplete in the dry run of a kill case ({len(events)} events "
+                                    f"recorded, file {len(start)} -> {len(clean_after)} bytes)")
+        if spec["chunk"] == 0 and j in (0, 2):
+            strace_crosscheck(ctx, path, start, events, via, bufsize, sess, split)
+        first = marks[0] if marks else 0             # events of the cleanly closed first session are no kill points
+        if mode == "between-puts" or (mode == "second-session" and rng.random() < 0.5) or len(events) <= first or blind:
+            kill = ("put", rng.randrange(split + 1, len(sess) + 1))
+        elif mode == "torn-start":
+            truncs = [i for i, e in enumerate(events) if e[0] == "t"]
+            kill = ("event", truncs[0] if truncs and rng.random() < 0.6 else rng.randrange(first, len(events)))
+        else:
+            kill = ("event", rng.randrange(first, len(events)))
+        jobf = ctx.tmp / f"job{j}.pkl"
+        jobf.write_bytes(pickle.dumps({"path": str(path), "via": via, "bufsize": bufsize, "sess": sess, "split": split,
+                                       "kill": kill}))
+        code = KILL_CHILD % {"syspath": [p for p in sys.path if p], "jobf": str(jobf)}
+        p = subprocess.run([sys.executable, "-c", code], capture_output=True, text=True, timeout=300)
+        killed = p.returncode == -signal.SIGKILL
+        if not killed:
+            # the dry run says the kill point exists: a child that got past it was not watched by the recorder
+            ctx.inconclusive.append(f"sigkill child was not killed at {kill} (mode {mode}, {len(events)} raw events in the "
+                                    f"dry run) rc={p.returncode}: {p.stderr[-400:]}")
+            continue
+        shape = {"via": via, "bufsize": bufsize, "mode": mode, "kill": list(kill), "killed": killed, "split": split,
+                 "raw_events": len(events),
                  "committed": [(len(k), len(v)) for k, v in committed], "session": [(len(k), len(v)) for k, v in sess]}
         J = Judge(ctx, case, shape)
         disk = path.read_bytes()
-        where = {"disk_len": len(disk), "before_len": len(before)}
-        ctx.case(case, dkey=repr(shape), nontrivial=killed and len(disk) > len(before), sample=shape)
-        shown = J.read_image(path, via)
+        where = {"disk_len": len(disk), "start_len": len(start)}
+        ctx.case(case, dkey=repr(shape), nontrivial=disk != start or kill[0] == "put", sample=shape)
         ctx.count("sigkill.judged")
-        if killed:
-            ctx.count("sigkill.really-killed")
+        ctx.count("sigkill.really-killed")
+        if kill[0] == "event":
+            ctx.count("sigkill.killed-at-raw-event")
+            ctx.count("sigkill.killed-at-raw-truncate" if events[kill[1]][0] == "t" else "sigkill.killed-at-raw-write")
+            # the crash model against reality: the recorded events predict what a real death leaves on the disk
+            if disk == replay(start, events, kill[1] + 1):
+                ctx.count("sigkill.disk-matches-replay")
+            else:
+                ctx.inconclusive.append(f"the file left by a child killed after raw event {kill[1]} is not the replay of the "
+                                        f"events recorded in the dry run (mode {mode}, shape {shape})")
+        else:
+            ctx.count("sigkill.killed-between-puts")
+        if mode == "torn-start":
+            ctx.count("sigkill.torn-start-killed")
+        if mode == "second-session":
+            ctx.count("sigkill.second-session-killed")
+        must0 = dict(committed + sess[:split])
+        maybe = dict(sess[split:])
+        shown = J.read_image(path, via)
         if shown is None:
             continue
-        present = J.judge(shown, dict(committed), dict(sess), "sigkill-reopen", where)
-        lost = [(k, b"again") for k, v in sess if k not in present]
+        present = J.judge(shown, must0, maybe, "sigkill-reopen", where)
+        lost = [(k, b"again") for k, v in sess[split:] if k not in present]
         err = recover(path, via, bufsize, lost + [(b"fresh", b"f")])
         if err is not None:
             J.v(f"sigkill-recovery:append-raises:{type(err).__name__}", where=where, err=repr(err)[:200])
             continue
         shown2 = J.read_image(path, via)
         if shown2 is not None:
-            must = dict(committed)
-            must.update({k: dict(sess)[k] for k in present})
+            must = dict(must0)
+            must.update({k: maybe[k] for k in present})
             must.update(dict(lost))
             must[b"fresh"] = b"f"
             J.judge(shown2, must, {}, "sigkill-after-recovery", where)
+            try:
+                from vmon.models.kvmap import scan, ScanError
+
+                try:
+                    scan(path.read_bytes())
+                except ScanError as e:
+                    J.v("sigkill-after-recovery:file-not-a-clean-record-sequence", where=where, err=str(e))
+            except ImportError:
+                pass
+
+
+def strace_crosscheck(ctx, path, start, events, via, bufsize, sess, split):
+    """once per run: the system calls a child makes on the file during the same session (seen by strace, which no
+    Python-level trick can get round) are the events the in-process recorder saw"""
+    import pickle
+    import re
+    import shutil
+
+    exe = shutil.which("strace")
+    if exe is None:
+        ctx.count("strace.unavailable")
+        return
+    jobf, outf = ctx.tmp / "strace-job.pkl", ctx.tmp / "strace.out"
+    jobf.write_bytes(pickle.dumps({"path": str(path), "via": via, "bufsize": bufsize, "sess": sess, "split": split,
+                                   "kill": ("none", 0)}))
+    code = KILL_CHILD % {"syspath": [p for p in sys.path if p], "jobf": str(jobf)}
+    try:
+        p = subprocess.run([exe, "-P", str(path), "-e", "trace=write,pwrite64,writev,pwritev,pwritev2,ftruncate,truncate",
+                            "-o", str(outf), sys.executable, "-c", code], capture_output=True, text=True, timeout=300)
+        text = outf.read_text(errors="replace") if outf.exists() else ""
+    except Exception as e:  # noqa
+        ctx.count("strace.unavailable")
+        ctx.note("strace-error", repr(e)[:200])
+        return
+    finally:
+        path.write_bytes(start)
+    if p.returncode != 0 or "exited with 0" not in text:
+        ctx.count("strace.unavailable")
+        ctx.note("strace-error", (p.stderr or text)[-300:])
+        return
+    seen = []
+    for line in text.splitlines():
+        m = re.match(r"^(?:\d+\s+)?(\w+)\((.*)\)\s+=\s+(-?\d+)", line)
+        if not m or int(m.group(3)) < 0:
+            continue
+        name, args, ret = m.group(1), m.group(2), int(m.group(3))
+        if name in ("ftruncate", "truncate"):
+            seen.append(("t", int(args.rsplit(",", 1)[1])))
+        elif ret > 0:
+            seen.append(("w", ret))
+    want = [("t", e[1]) if e[0] == "t" else ("w", len(e[2])) for e in events if e[0] == "t" or len(e[2])]
+    if seen == want:
+        ctx.count("strace.stream-matches-recorder")
+        ctx.count("strace.syscalls-compared", len(seen))
+    else:
+        ctx.inconclusive.append(f"the raw-event recorder does not see what the OS sees: strace shows {seen[:12]} "
+                                f"({len(seen)} calls), the recorder {want[:12]} ({len(want)} events)")
+
+
+def recover_split(path, sess, via, bufsize, split, on_split):
+    try:
+        write_session(path, sess, via, bufsize, split=split, on_split=on_split)
+    except Exception as e:  # noqa
+        return e
+    return None
